@@ -22,7 +22,7 @@ META = {
 
 
 def select(s):
-    return (s["holder"] == "none" and s["changeAt"] == "none" and s["prior"] == "absent" and not s["shared"]
+    return (not s["symlink"] and s["holder"] == "none" and s["changeAt"] == "none" and s["prior"] == "absent" and not s["shared"]
             and s["wopt"] == "default" and s["mmapOut"] and s["multi"]
             and (s["faultAt"] == "none" or s["faultKind"] in ("error", "panic")))
 
